@@ -191,6 +191,9 @@ def h_oniom(env, geom, frags, as_string=False, canary=None):
                 ref = ref + E(f["high"], f.get("ohigh"), f, atoms)
         desc = " | ".join(f"{f.get('low')}/{f.get('high')} sel={f.get('sel')} links={f.get('links')}" for f in frags)
         env.check_eq(total, ref, f"ONIOM total == E_low(system) + sum_i [E_high_i(model_i) - E_low_i(model_i)]  [{desc}]")
+        if canary is None:
+            # asking the same object again gives the same energy (nothing accumulates between two simulate() calls)
+            env.check_eq(oniom.simulate(), ref, f"ONIOM total on a second simulate() of the same object  [{desc}]")
         sysf = frags[0]
         models = frags[1:]
         if not sysf.get("low"):
